@@ -1116,3 +1116,52 @@ func (r *Run) isModuleStateLocal(fn *Func, lhs ast.Expr) bool {
 	}
 	return false
 }
+
+// ruleFrameLimit (G8): the size of the frames a client may send is the transport's (x/net/websocket: 32 MiB
+// when Conn.MaxPayloadBytes is left alone). A server that assigns the limit lowers it for requests that are
+// accepted today: a frame over the new limit ends the connection at the transport — the request in it is never
+// answered, an over-long custom message is not refused with its error, and the participant is dropped from its
+// session. Accepted: no assignment at all, or a constant that is at least the transport's default.
+func ruleFrameLimit(r *Run) {
+	if r.broken() {
+		return
+	}
+	const transportDefault = 32 << 20
+	n := 0
+	for _, fn := range r.P.All {
+		if fn.Body == nil || fn.Lit != nil {
+			continue
+		}
+		ast.Inspect(fn.Body, func(nd ast.Node) bool {
+			as, ok := nd.(*ast.AssignStmt)
+			if !ok {
+				return true
+			}
+			for i, l := range as.Lhs {
+				se, ok := ast.Unparen(l).(*ast.SelectorExpr)
+				if !ok {
+					continue
+				}
+				sel, ok := fn.Info().Selections[se]
+				if !ok || sel.Kind() != types.FieldVal || sel.Obj().Name() != "MaxPayloadBytes" || sel.Obj().Pkg() == nil || sel.Obj().Pkg().Path() != "golang.org/x/net/websocket" {
+					continue
+				}
+				n++
+				good := false
+				val := "a value computed at run time"
+				if len(as.Rhs) == len(as.Lhs) && as.Tok == token.ASSIGN {
+					if c, isC := intConstVal(fn.Info(), as.Rhs[i]); isC {
+						good = c >= transportDefault || c == 0
+						val = fmt.Sprintf("%d", c)
+					}
+				}
+				r.Check("G8", fn.Name+":frame-limit-not-lowered", good, as.Pos(),
+					"%s sets the connection's frame size limit to %s; clients can send frames of up to %d bytes today, and a request in a frame over a lower limit ends the connection unanswered (an over-long custom message is no longer refused with its error)", fn.Name, val, transportDefault)
+			}
+			return true
+		})
+	}
+	if n == 0 {
+		r.Check("G8", "frame-limit-left-to-the-transport", true, 0, "no function of the repository assigns Conn.MaxPayloadBytes (all non-test functions scanned)")
+	}
+}
